@@ -36,6 +36,14 @@ pub struct Cfg {
     pub prefix_commits: usize,
     pub sweeps: usize,
     pub node_pool: Vec<Hex>,
+    /// largest number of stop positions examined per commit (part of the configuration so that a
+    /// replay examines what the generating run examined)
+    #[serde(default = "default_sweep_cap")]
+    pub sweep_cap: u32,
+}
+
+fn default_sweep_cap() -> u32 {
+    48
 }
 
 pub struct C19;
@@ -386,6 +394,7 @@ impl World for C19 {
             prefix_commits: rng.range(0, 4) as usize,
             sweeps: rng.range(1, 2) as usize,
             node_pool,
+            sweep_cap: if tier == Tier::Thorough { 192 } else { 48 },
         }
     }
 
@@ -454,7 +463,7 @@ impl World for C19 {
                         stats.bump("sweep.bulk_commit_256_plus");
                     }
                     let w = seen.len() as u32;
-                    let cap: u32 = if steps.tier() == Tier::Thorough { 192 } else { 48 };
+                    let cap: u32 = cfg.sweep_cap;
                     if w + 1 <= cap {
                         stats.bump("sweeps.every_position");
                         (1..=w + 1).collect()
